@@ -45,8 +45,12 @@ Definition add (x : N) (s : list N) : list N := if mem x s then s else x :: s.
 Fixpoint rem (x : N) (s : list N) : list N :=
   match s with [] => [] | y :: t => if x =? y then rem x t else y :: rem x t end.
 
-Inductive variant := Pinned | Current.
-Definition reconciles (v : variant) : bool := match v with Current => true | Pinned => false end.
+(* Pinned: before 5522a98 (no index reconciliation).  Head: /repo as it is (5522a98, 58d6be9).
+   Current: Head + fixes/C07-register-replace-shared-stream.diff (Register of an existing ConnID whose replacement wraps
+   the same stream drops the old record without closing that stream, and a replacement never triggers limit eviction). *)
+Inductive variant := Pinned | Current | Head.
+Definition reconciles (v : variant) : bool := match v with Pinned => false | _ => true end.
+Definition keeps_shared (v : variant) : bool := match v with Current => true | _ => false end.
 
 (* connection/types.go ControlConnection (the fields the registry reads) *)
 Record ctl := { c_cid : N; c_auth : bool; c_seq : N (* CreatedAt order *); c_last : N (* LastActiveAt *) }.
@@ -128,6 +132,19 @@ Definition registry_register (k : cfg) (c : N) (r : ctl) (s : st) : st :=
       if c_auth r && (0 <? c_cid r) then with_idx s3 (set (c_cid r) c (idx s3)) else s3
   end.
 
+(* Register(conn) when conn.ConnID may already have a record and conn wraps the SAME stream as that record (what the server's
+   call sites produce: NewControlConnection(sessionConn.ID, sessionConn.Stream, ...)).
+   Head: the code above — limit eviction first, then removeConnectionLocked(existing), which closes the shared stream.
+   Current: a replacement does not evict, and the existing record is dropped like Unregister (stream stays open). *)
+Definition no_limit (k : cfg) : cfg := {| maxConn := maxConn k; maxCtl := 0; hbTimeout := hbTimeout k |}.
+Definition registry_rereg (v : variant) (k : cfg) (c : N) (r : ctl) (s : st) : st :=
+  if keeps_shared v then
+    match get c (reg s) with
+    | Some _ => registry_register (no_limit k) c r (registry_unregister c s)
+    | None => registry_register k c r s
+    end
+  else registry_register k c r s.
+
 (* dropStaleIndexLocked(conn): delete every index entry that points at conn under an id that is not its current identity *)
 Definition drop_stale (c : N) (r : ctl) (i : amap N) : amap N :=
   filter (fun e => negb (snd e =? c) || (c_auth r && (fst e =? c_cid r))) i.
@@ -179,7 +196,8 @@ Inductive op :=
 | RegRaw (c pre : N)
 | AuthRaw (c x : N)
 | ToTunnel (c t : N)
-| BreakWrites (c : N).
+| BreakWrites (c : N)
+| ReReg (c pre : N).      (* RegisterControlConnection(NewControlConnection(session conn c)) whether or not c has a record *)
 
 (* what an operation returns: error flag and a count (sweep) *)
 Definition res := (bool * N)%type.
@@ -278,6 +296,10 @@ Definition step (v : variant) (k : cfg) (s : st) (o : op) : st * res :=
         ({| streams := streams s1; sess := sess s1; reg := reg s1; idx := idx s1; tun := set c t (tun s1);
             tmap := if 0 <? t then set t c (tmap s1) else tmap s1;
             closed := closed s1; wfail := wfail s1; now := now s1; nseq := nseq s1 |}, (false, 0))
+      else (s, (false, 0))
+  | ReReg c pre =>
+      if mem c (sess s) && negb (mem c (closed s))
+      then (bump (registry_rereg v k c (new_ctl s pre) s), (false, 0))
       else (s, (false, 0))
   | BreakWrites c =>
       if mem c (streams s) then
